@@ -21,19 +21,18 @@ RECURSIVE NFold(_, _)
 NFold(e, n) == IF n = 0 THEN Id ELSE GAdd(G, NFold(e, n - 1), e)
 Inverse(e) == CHOOSE f \in Subgroup(G) : GAdd(G, e, f) = Id
 
-VARIABLES a, b, c, m, n, sub
-v == <<a, b, c, m, n, sub>>
+VARIABLES a, b, c, m, n, sub, ready
+v == <<a, b, c, m, n, sub, ready>>
 (* two-stage fan-out: the initial states fix a, the step picks the rest, so     *)
 (* that all TLC workers share the tuples                                      *)
-None == <<"none">>
-Init == sub = Subgroup(G) /\ a \in sub /\ b = None /\ c = None /\ m = 0 /\ n = 0
-Next == /\ b = None
+Init == sub = Subgroup(G) /\ a \in sub /\ b = a /\ c = a /\ m = 0 /\ n = 0 /\ ready = FALSE
+Next == /\ ~ready /\ ready' = TRUE
         /\ b' \in sub
         /\ IF MODE = "triples" THEN c' \in sub /\ m' = 0 /\ n' = 0
            ELSE c' = Id /\ m' \in (0 - q)..(2 * q) /\ n' \in {s - q : s \in SCALARS}   \* cfg files cannot hold negative numbers
         /\ UNCHANGED <<a, sub>>
 Spec == Init /\ [][Next]_v
-Ready == b # None
+Ready == ready
 
 Closed(e) == e \in sub
 AddAxioms == Ready =>
